@@ -75,6 +75,10 @@ pub struct PCase {
     pub expiry: ExpirySel,
     pub max_size: SizeSel,
     pub ops: Vec<POp>,
+    /// (schedule point, delay ms) pairs armed for the whole case; only hand-written
+    /// regression files use it (the generator leaves it empty)
+    #[serde(default)]
+    pub chaos: Vec<(String, u64)>,
 }
 
 /// generator profile per focus property
@@ -364,6 +368,7 @@ pub fn case_strategy(p: &Params) -> BoxedStrategy<PCase> {
             expiry,
             max_size,
             ops,
+            chaos: vec![],
         })
         .boxed()
 }
